@@ -4,7 +4,8 @@ from ..vlib import core
 
 RULE = ("input scenarios (arrival instants, delay-draw sequence, loss-draw sequence, loss rate) emitted by the exhaustive "
         "TLC runs of WireMC plus seeded random larger lattice scenarios, each replayed on the real Wire or on both "
-        "directions of a real Cable (every direction validated as its own Wire instance); a scenario is non-trivial when "
+        "directions of a real Cable (every direction validated as its own Wire instance; in a fifth of the scenarios the far "
+        "end was connected to other receivers first, in a seventh the same receiver is assigned again mid-run); a scenario is non-trivial when "
         "it contains a packet held back for order (a + d earlier than the previous delivery, e.g. a decreasing delay "
         "sequence), a same-instant burst, an arrival at a delivery instant, a zero delay, a discarded packet, a discarded "
         "packet with others queued behind it, a loss draw exactly at the rate, the same packet object handed in again while "
@@ -25,13 +26,33 @@ def direction(rng, w):
     return {"arr": arr, "dl": list(w["dl"]), "us": [list(u) for u in w["us"]]}
 
 
+def replugged(rng, sc):
+    """The far end connected elsewhere first / assigned again while packets are in flight: harmless re-configurations."""
+    if rng.random() < 0.2:
+        sc["replug"] = rng.choice([1, 1, 2])
+    if rng.random() < 0.15:
+        ts = [a["t"] for d in sc["dirs"] for a in d["arr"]]
+        hi = max(ts + [1]) + 3
+        sc["replug_at"] = sorted(rng.randint(0, hi) for _ in range(rng.choice([1, 2])))
+    return sc
+
+
 def wire_scenario(ctx, w):
+    rng = ctx.rng
+    return replugged(rng, _wire_scenario(ctx, w))
+
+
+def cable_scenario(ctx, w1, w2):
+    return replugged(ctx.rng, _cable_scenario(ctx, w1, w2))
+
+
+def _wire_scenario(ctx, w):
     rng = ctx.rng
     return {"kind": "wire", "cfg": w["cfg"], "unit": rng.choice(UNITS), "intd": rng.choice([0, 1]),
             "dflt": rng.choice([0, 1]), "wid": rng.choice([0, 7]), "echo": 0, "ptime": rng.choice([0, 1]), "dirs": [direction(rng, w)]}
 
 
-def cable_scenario(ctx, w1, w2):
+def _cable_scenario(ctx, w1, w2):
     """two workloads with the same loss configuration, one per direction of one Cable"""
     rng = ctx.rng
     return {"kind": "cable", "cfg": w1["cfg"], "unit": rng.choice(UNITS), "intd": rng.choice([0, 1]),
